@@ -71,6 +71,11 @@ def instances(tier):
     fam.append(("2 2x2 density matrices, first stored as a float array, second complex, uniform",
                 [np.diag([0.25, 0.25, 0.25, 0.25]) + 0.125 * (np.eye(4, k=3) + np.eye(4, k=-3)),
                  np.diag([0.5, 0.25, 0.25, 0]) + 0.125j * (np.eye(4, k=1) - np.eye(4, k=-1))], None, [2, 2]))
+    # an entangled state against separable noise, the entangled state listed LAST: the unconstrained optimal measurement is PPT for
+    # every outcome but the last (round-6 seed: a shortcut that tests all but the last effect); PPT value 5/6, global optimum 1
+    phi = np.zeros((4, 4))
+    phi[np.ix_([0, 3], [0, 3])] = 0.5
+    fam.append(("(1 - Phi)/3 and the Bell projector Phi, uniform", [(np.eye(4) - phi) / 3, phi.copy()], None, [2, 2]))
     if tier == "thorough":
         import os
         rng = np.random.default_rng(1200 + int(os.environ.get("VERIF_SEED", "0") or 0))
@@ -489,7 +494,7 @@ def obligations(tier):
                 cfg = {"instance": name, "subsystems": S, "dimensions": dims, "primal_dual": pd}
                 obs.append(SdpTask("ppt_distinguishability.program_is_textbook_program", cfg,
                                    (lambda vs=vs, ps=ps, S=S, dims=dims, pd=pd: ppt_distinguishability(vs, S, dims, ps, primal_dual=pd)),
-                                   ref, instance=(vs, pp, dims, S)))
+                                   ref, instance=(vs, pp, dims, S), replay_oracle=ppt_value, tol=5e-4))
         # hierarchy: level 1 everywhere, level 2 on small systems
         levels = [1] + ([2] if (dims == [2, 2] and n == 2) or (T and n == 2) else [])
         for level in levels:
